@@ -8,8 +8,9 @@
      after_move ... = the (directory, registry) right after move_to_cache
      WInv w : file names unique, sizes >= 0, and for BOTH managers: entry names unique and cache_size = sum of entry sizes
    PART 2, the registry caches of caching_context():
-     rstep chain_fix use_cache : chain_fix = false is the code as it is (setCollectionChain leaves the summary cache alone);
-                                 chain_fix = true the candidate repair; use_cache = false = the same client without contexts
+     rstep chain_fix use_cache : chain_fix = true is the code as it is (setCollectionChain drops the summary cache, /repo d43ed5b);
+                                 chain_fix = false the code before that repair (refutation witness only);
+                                 use_cache = false = the same client without contexts
      Coherent t cs : every cached chain definition / summary equals what the tables say now. *)
 From Coq Require Import ZArith NArith List Bool Lia.
 From V Require Import Model.Cache Proofs.CacheProofs Proofs.CacheProofsB Proofs.CacheProofsC.
@@ -109,6 +110,18 @@ Theorem move_with_mode_no_ghost :
 Proof. vm_compute. split; reflexivity. Qed.
 Print Assumptions move_with_mode_no_ghost.
 
+(* with ANY expiry mode configured (files / datasets / size / age), from ANY state of the directory and the registry:
+   the file just moved is in the directory and in the registry, and every registry entry has its file *)
+Theorem moved_file_present : forall age_fix c now k size disk m, expiring (c_mode c) ->
+  In k (keys (fst (after_move age_fix c now k size (disk, m)))) /\ In k (keys (entries (snd (after_move age_fix c now k size (disk, m))))).
+Proof. exact moved_file_present_p. Qed.
+Print Assumptions moved_file_present.
+
+Theorem entries_have_files_after_move : forall age_fix c now k size disk m x, expiring (c_mode c) ->
+  In x (keys (entries (snd (after_move age_fix c now k size (disk, m))))) -> In x (keys (fst (after_move age_fix c now k size (disk, m)))).
+Proof. exact move_entries_on_disk_p. Qed.
+Print Assumptions entries_have_files_after_move.
+
 (* non-vacuity: a reachable two-client state with evictions satisfies the invariant's hypotheses *)
 Example bookkeeping_example :
   let h := [OpA (Move 0%N 10); Tick 1; OpB (Move 4%N 20); Tick 1; OpA (Move 8%N 30); OpB (Find 8%N); ExtDelete 4%N; OpA Scan] in
@@ -124,34 +137,29 @@ Theorem cache_transparent : forall t cs ty c, wf_tables t -> Coherent t cs ->
 Proof. exact cache_transparent_p. Qed.
 Print Assumptions cache_transparent.
 
-(* with the candidate repair: coherence is an invariant of EVERY history, and every answer of every history is the
-   answer of the same client without caching contexts *)
-Theorem coherent_inv_with_chain_fix : forall h t cs, wf_tables t -> Coherent t cs -> wf_hist t h ->
+(* coherence is an invariant of EVERY history (contexts, puts, chain edits, queries in any order), and every answer of
+   every history is the answer of the same client without caching contexts *)
+Theorem coherent_inv : forall h t cs, wf_tables t -> Coherent t cs -> wf_hist t h ->
   Coherent (fst (fst (rrun true true (t, cs) h))) (snd (fst (rrun true true (t, cs) h))).
 Proof. intros. apply (run_transparent_p true h t cs); auto. Qed.
-Print Assumptions coherent_inv_with_chain_fix.
+Print Assumptions coherent_inv.
 
-Theorem run_transparent_with_chain_fix : forall h t, wf_tables t -> wf_hist t h ->
+Theorem run_transparent : forall h t, wf_tables t -> wf_hist t h ->
   snd (rrun true true (t, no_caches) h) = snd (rrun true false (t, no_caches) h).
 Proof. intros. apply (run_transparent_p true h t no_caches); auto. apply coherent_none. Qed.
-Print Assumptions run_transparent_with_chain_fix.
+Print Assumptions run_transparent.
 
-(* the code as it is: the same for every history that does not edit a chain (puts, queries, contexts in any order) *)
-Theorem coherent_inv_partial : forall h t cs, wf_tables t -> Coherent t cs -> wf_hist t h -> Forall no_setchain h ->
-  Coherent (fst (fst (rrun false true (t, cs) h))) (snd (fst (rrun false true (t, cs) h))).
-Proof. intros. apply (run_transparent_p false h t cs); auto. Qed.
-Print Assumptions coherent_inv_partial.
+(* the same from a warm, coherent cache *)
+Theorem run_transparent_from_coherent : forall h t cs, wf_tables t -> Coherent t cs -> wf_hist t h ->
+  snd (rrun true true (t, cs) h) = snd (rrun true false (t, no_caches) h).
+Proof. intros. apply (run_transparent_p true h t cs); auto. Qed.
+Print Assumptions run_transparent_from_coherent.
 
-Theorem run_transparent_partial : forall h t, wf_tables t -> wf_hist t h -> Forall no_setchain h ->
-  snd (rrun false true (t, no_caches) h) = snd (rrun false false (t, no_caches) h).
-Proof. intros. apply (run_transparent_p false h t no_caches); auto. apply coherent_none. Qed.
-Print Assumptions run_transparent_partial.
-
-(* the code as it is, WITH a chain edit inside a context: getCollectionSummary of the chain keeps the summary cached
-   before the edit (reproduced on the implementation; known finding) *)
+(* WITHOUT the invalidation of d43ed5b (setCollectionChain leaving the summary cache alone) a chain edit inside a context
+   makes getCollectionSummary of the chain stale: removing that line breaks `coherent_inv` / `run_transparent` *)
 Definition chain_tables : tables := mkTables [(4, [0])] [(0, 0); (1, 1)] [(10, 0, 0); (11, 1, 1)].
 Definition chain_history : list rop := [Enter; QSummary 4; SetChain 4 [0; 1]; QSummary 4].
-Theorem coherence_refuted_chain_edit :
+Theorem coherence_refuted_without_fix :
   wf_tables chain_tables /\ wf_hist chain_tables chain_history
   /\ snd (rrun false true (chain_tables, no_caches) chain_history) = [[]; [0]; []; [0]]
   /\ snd (rrun false false (chain_tables, no_caches) chain_history) = [[]; [0]; []; [0; 1]].
@@ -161,12 +169,14 @@ Proof.
     destruct Hm as [<-|[]]. reflexivity.
   - simpl. repeat split; auto; try discriminate. intros m [Hm|[Hm|[]]]; subst; reflexivity.
 Qed.
-Print Assumptions coherence_refuted_chain_edit.
+Print Assumptions coherence_refuted_without_fix.
 
-Theorem chain_edit_transparent_with_fix :
-  snd (rrun true true (chain_tables, no_caches) chain_history) = snd (rrun true false (chain_tables, no_caches) chain_history).
-Proof. vm_compute. reflexivity. Qed.
-Print Assumptions chain_edit_transparent_with_fix.
+(* the same history on the code as it is *)
+Theorem chain_edit_transparent :
+  snd (rrun true true (chain_tables, no_caches) chain_history) = [[]; [0]; []; [0; 1]]
+  /\ snd (rrun true false (chain_tables, no_caches) chain_history) = [[]; [0]; []; [0; 1]].
+Proof. vm_compute. split; reflexivity. Qed.
+Print Assumptions chain_edit_transparent.
 
 (* a client sees its own completed write (the repaired invalidation of 72f8c65: the summary cache is dropped) *)
 Theorem own_write_visible : forall chain_fix use_cache t cs id ty run,
@@ -177,5 +187,5 @@ Print Assumptions own_write_visible.
 
 (* non-vacuity: a history with a cached read, a put and a second read inside one context *)
 Example own_write_example :
-  snd (rrun false true (chain_tables, no_caches) [Enter; QData 1 0; Put 12 1 0; QData 1 0; QData 1 4]) = [[]; []; []; [12]; [12]].
+  snd (rrun true true (chain_tables, no_caches) [Enter; QData 1 0; Put 12 1 0; QData 1 0; QData 1 4]) = [[]; []; []; [12]; [12]].
 Proof. vm_compute. reflexivity. Qed.
